@@ -3,6 +3,8 @@
 let () =
   match Array.to_list Sys.argv with
   | [ _; "segments"; path ] -> Drv_segments.run path
+  | [ _; "recv"; path ] -> Drv_tx.run_recv path
+  | [ _; "send"; path ] -> Drv_tx.run_send path
   | _ ->
       prerr_endline "usage: driver <component> <ops>";
       exit 2
